@@ -1590,12 +1590,13 @@ package gedcom
 // walked, the context handed to every warning names the root record that is
 // being walked and nothing else - an individual record sets the individual and
 // clears the family, a family record sets the family and clears the individual
-// - and every node of the record is visited through Filter into a scratch
-// document.
+// , any other record (a source, a note, the header) has NO context: it does not
+// inherit the person of the record before it (repaired, fix: commit) - and every
+// node of the record is visited through Filter into a scratch document.
 //@ func Document.Warnings
 //@   props C20
 //@   opaque Filter, NewDocument
-//@   oncall Filter check walks-this-record-with-its-own-context: arg0 == node && implies(typeis(node, "*gedcom.IndividualNode"), context.Individual == data(node) && context.Family == nil) && implies(typeis(node, "*gedcom.FamilyNode"), context.Family == data(node) && context.Individual == nil)
+//@   oncall Filter check walks-this-record-with-its-own-context: arg0 == node && implies(typeis(node, "*gedcom.IndividualNode"), context.Individual == data(node) && context.Family == nil) && implies(typeis(node, "*gedcom.FamilyNode"), context.Family == data(node) && context.Individual == nil) && implies(!typeis(node, "*gedcom.IndividualNode") && !typeis(node, "*gedcom.FamilyNode"), context.Individual == nil && context.Family == nil)
 //@   oncall Filter check into-a-scratch-document: fresh(arg1)
 
 // C11 (the stages run one after the other): the pointer stage's "already sent"
